@@ -899,7 +899,9 @@ def get_principal_component_matrix(A: np.ndarray,
     [U, S, V_H] = np.linalg.svd(A)
     num_rows = U.shape[0]
     num_cols = V_H.shape[1]
-    newS = np.zeros(num_rows, dtype=A.dtype)
+    # Note: the dtype must be the one of the singular values. With A.dtype
+    # the singular values of an integer matrix would be truncated.
+    newS = np.zeros(num_rows, dtype=S.dtype)
     newS[:num_components] = S[:num_components]
     newS = np.diag(newS)[:, :num_cols]
 
